@@ -28,6 +28,9 @@ type c15Case struct {
 	EqLen bool `json:"eq_len,omitempty"`
 	// Ragged: striped calls whose slices have lengths 1, 5, 2, 4, ... (shorter and longer than the buffer)
 	Ragged bool `json:"ragged,omitempty"`
+	// Part > 0 (striped): the buffer is Alloc(C1, 0, 3) with Part samples appended one by one (fewer than
+	// one frame when Part < C1)
+	Part int `json:"part,omitempty"`
 }
 
 // snapshot of a buffer: shape + every sample over its capacity
@@ -168,6 +171,16 @@ func c15RunRaw(cs c15Case) (fs []F) {
 			key = "WriteStriped"
 			buf = mk(d, cs.C1, 2, 3, 1)
 		}
+		if cs.Part > 0 {
+			bt := d
+			if cs.Fn == "rstriped" {
+				bt = s
+			}
+			buf = dyn.Alloc(bt, al(cs.C1, 0, 3))
+			for k := 0; k < cs.Part; k++ {
+				buf.AppendSample(dyn.Tok(bt, tk(int64(k+1))))
+			}
+		}
 		sn := takeSnap(buf)
 		sls := make([]dyn.Sl, cs.C2)
 		dyn.TakeCallerDamage()
@@ -275,6 +288,9 @@ func init() {
 							if n != ch {
 								cases = append(cases, c15Case{Fn: "rstriped", S: tn(s), D: tn(d), C1: ch, C2: n})
 								cases = append(cases, c15Case{Fn: "wstriped", S: tn(s), D: tn(d), C1: ch, C2: n})
+								if n > 0 && n < ch && (s == d || (s+d)%4 == 0) { // as many slices as the buffer holds samples, less than one frame
+									cases = append(cases, c15Case{Fn: "rstriped", S: tn(s), D: tn(d), C1: ch, C2: n, Part: n}, c15Case{Fn: "wstriped", S: tn(s), D: tn(d), C1: ch, C2: n, Part: n})
+								}
 								if n > 0 {
 									cases = append(cases, c15Case{Fn: "rstriped", S: tn(s), D: tn(d), C1: ch, C2: n, Ragged: true}, c15Case{Fn: "wstriped", S: tn(s), D: tn(d), C1: ch, C2: n, Ragged: true})
 								}
